@@ -940,7 +940,7 @@ def judge(ck, mode, rname, I, e, l, kind, val, native, uniq, counter, nat_every,
 
 
 # ---------------------------------------------------------------------------------------------- the check driver
-QUICK_RECEIVERS = ["S1", "S2", "S3", "S4", "S5", "S6", "S7", "S8", "S8b", "S8c", "S8d", "S9", "S11", "S12", "S13", "S14"]
+QUICK_RECEIVERS = ["S1", "S2", "S3", "S4", "S5", "S6", "S7", "S8", "S8b", "S8c", "S8d", "S9", "S11", "S12", "S13", "S14", "S15", "S16"]
 # receivers whose leaf count explodes get a smaller top-level bound: name -> (K quick, K thorough)
 META_RECEIVERS = ["S1", "S2", "S9c"]
 SMALL_K = {"S9": (1, 1)}
